@@ -44,7 +44,7 @@ def blk(kind, k, pad=True):
     if kind == 'procs':
         return B.v3_block(B.TAG_PROCESSES, B.bplist({'Processes': [k]}), pad)
     if kind == 'kexts':
-        return B.v3_block(B.TAG_KEXTS, B.bplist({'Binaries': [{'k': f'kx{k}'}, {'k': f'ky{k}'}]}), pad)
+        return B.v3_block(B.TAG_KEXTS, B.bplist({'Binaries': [{'k': f'kx{k}'}, {'k': f'ky{k}'}], 'Extra': k}), pad)
     if kind == 'images':
         return B.v3_block(B.TAG_IMAGES, B.bplist({'Images': [f'im{k}']}), pad)
     if kind == 'logs':
@@ -141,6 +141,15 @@ def judge(blob, threads, recs, kseq, cpu, parser=None, offset=0, buffered=0):
         bad.append(('v3-dyld-modules', {'got': repr(p.dyld_modules), 'exp': repr(m['dyld'])}))
     if m['dyld'] and p.dyld_modules.get('Extra') not in range(len(m['dyld'])):
         bad.append(('v3-dyld-modules-scalar', {'got': repr(p.dyld_modules)}))
+    # a section that comes in ONE block is exposed equal to its payload, whatever further keys the payload has; with several blocks the
+    # lists are concatenated (above) and a further key, if shown, has the value one of the blocks gave it
+    nk, nd = list(kseq).count('kexts'), list(kseq).count('dyld')
+    if nk == 1 and p.kernel_extensions != {'Binaries': m['kexts'], 'Extra': 0}:
+        bad.append(('v3-single-block-section-not-equal-to-its-payload:kernel-extensions', {'got': repr(p.kernel_extensions)}))
+    if nd == 1 and p.dyld_modules != {'Binaries': m['dyld'], 'Extra': 0}:
+        bad.append(('v3-single-block-section-not-equal-to-its-payload:dyld-modules', {'got': repr(p.dyld_modules)}))
+    if nk > 1 and p.kernel_extensions.get('Extra', 0) not in range(nk) or set(p.kernel_extensions) - {'Binaries', 'Extra'}:
+        bad.append(('v3-kexts-scalar', {'got': repr(p.kernel_extensions)}))
     if (m['procs'] and p.processes not in m['procs']) or (not m['procs'] and p.processes != {}):
         bad.append(('v3-processes', {'got': repr(p.processes), 'exp': repr(m['procs'])}))
     if (m['images'] and p.images not in m['images']) or (not m['images'] and p.images != {}):
@@ -408,7 +417,10 @@ class C03(Check):
             for kseq in [('procs',), ('kexts', 'kexts'), ('images',), ('dyld', 'kexts', 'procs', 'images'), ()]:
                 blob, threads, recs, ks, cpu = make(**dict(DEFAULT, kseq=kseq))
                 m = expected_meta(ks)
-                for cmd, exp in (('processes', m['procs'][-1:] or [{}]), ('kexts', [{'Binaries': m['kexts']}]), ('images', m['images'][-1:] or [{}])):
+                nk = list(ks).count('kexts')
+                kx = [{'Binaries': m['kexts']}] if nk == 0 else [{'Binaries': m['kexts'], 'Extra': 0}] if nk == 1 else \
+                     [{'Binaries': m['kexts']}] + [{'Binaries': m['kexts'], 'Extra': j} for j in range(nk)]
+                for cmd, exp in (('processes', m['procs'][-1:] or [{}]), ('kexts', kx), ('images', m['images'][-1:] or [{}])):
                     code, lines, exc = run_cli(blob, [cmd])
                     acc.case(nontrivial=bool(kseq), transitions=1, state=h64(('cli', cmd, kseq)))
                     try:
